@@ -52,7 +52,7 @@ def run(ctx):
                            "binary": c01.run_binary(wsrc, ["-O0", "-fyield-support"], inp, os.path.join(common.BUILD, "c08", "w"))}, found_input=True)
         else:
             ctx.log("witness: the finding no longer reproduces")
-    n = 450 if quick else 6000
+    n = 450 if quick else 2400
     levels = ["-O0", "-O3"] if quick else ["-O0", "-O1", "-O2", "-O3"]
     shapes = collections.Counter()
     def progs():
